@@ -436,7 +436,11 @@ func Check(verifRoot, self, prop, tier string, seed uint64) (*Result, error) {
 			res.NViol++
 			rp := &Replay{Property: prop, Engine: "convsim", Signature: r.Signature, Root: r.Root, Seed: seed, Tier: tier, Steps: steps,
 				Program: p, FailFile: r.FailFile, Detail: r.Detail}
-			dir := filepath.Join(verifRoot, "evidence", "replay")
+			outRoot := verifRoot
+			if v := os.Getenv("VERIF_EVIDENCE_ROOT"); v != "" {
+				outRoot = v
+			}
+			dir := filepath.Join(outRoot, "evidence", "replay")
 			os.MkdirAll(dir, 0o755)
 			path := filepath.Join(dir, fmt.Sprintf("%s-%d-%s.json", prop, seed, r.Root))
 			b, _ := json.MarshalIndent(rp, "", " ")
